@@ -359,7 +359,27 @@ pub fn gen_input(n: usize, rng: &mut ChaCha20Rng) -> Option<(V4, String)> {
             }
         }
     }
-    let sname = ["dense", "sparse", "spiky", "zero-k", "zero-k-tiny-FG", "fraction"][shape];
+    // one time in five (n >= 4): the quotient holds aligned blocks (u, -u) (the lower half of a
+    // block is the exact negation of its upper half), up to k = u(x)(1 - x^(n/2)): folded sums
+    // lo + hi of such blocks vanish, which a divide-and-conquer product must not mistake for
+    // "nothing to do"
+    let mut sname_override: Option<&str> = None;
+    if n >= 4 && shape < 3 && rng.gen_range(0..5) == 0 {
+        let levels = n.trailing_zeros();
+        let h = 1usize << rng.gen_range(0..levels); // half-length of the block
+        let whole = rng.gen_range(0..3) == 0;
+        let blocks: Vec<usize> = if whole { (0..n / (2 * h)).collect() } else { vec![rng.gen_range(0..n / (2 * h))] };
+        for b in blocks {
+            let off = b * 2 * h;
+            for i in 0..h {
+                let u = rng.gen_range(-mag..=mag).max(-mag);
+                k[off + i] = if u == 0 { 1 } else { u };
+                k[off + h + i] = -k[off + i];
+            }
+        }
+        sname_override = Some("negated-half-blocks");
+    }
+    let sname = sname_override.unwrap_or(["dense", "sparse", "spiky", "zero-k", "zero-k-tiny-FG", "fraction"][shape]);
     // scale k down until (F,G) fits below 2^24
     for _ in 0..24 {
         let kf = spec::negamul_z(&k, &f);
